@@ -25,6 +25,9 @@ func Compile(root *Module) error {
 type compiler struct {
 	root *Module
 	pool map[HasDefinitions]struct{}
+
+	// typedefs whose type is being compiled right now: reaching one of them again is a cycle
+	typedefsInProgress map[*Typedef]bool
 }
 
 func (c *compiler) module(y *Module) error {
@@ -416,7 +419,16 @@ func (c *compiler) findTypedef(y *Type, parent Definition, qualifiedIdent string
 	}
 
 	// this will recurse if typedef references another typedef
-	if err := c.compile(found); err != nil {
+	if c.typedefsInProgress[found] {
+		return nil, errors.New(SchemaPath(parent) + " - typedef " + y.ident + " is defined in terms of itself")
+	}
+	if c.typedefsInProgress == nil {
+		c.typedefsInProgress = make(map[*Typedef]bool)
+	}
+	c.typedefsInProgress[found] = true
+	err := c.compile(found)
+	delete(c.typedefsInProgress, found)
+	if err != nil {
 		return nil, err
 	}
 
